@@ -595,6 +595,9 @@ func CanonicalIsomorphAllocated(n, m int, neighbours [][]int, op *CanonicalOrder
 
 	skipDeage := false
 
+	//Cells which are singletons from the start (singleton vertex classes) are never split so make sure their part of the value is present.
+	op.expandValue(neighbours, currentBest, firstLeaf)
+
 	//Split the partition.
 	//We split here and at the end of the loop so we can easily handle the CheckViable option. It wouldn't be hard to check it the other way but might require a
 	worse := equitableRefinementProcedure(neighbours, op, dws, nbs, space, timesSeen, maxCell, numberOfMax, currentBest, firstLeaf, options)
